@@ -80,10 +80,7 @@ func (s *session) otherRoots(n int) []types.Hash256 {
 	for i := range out {
 		out[i] = s.e.roots[(i+5)%numSectors]
 	}
-	if n > 1 {
-		out[0], out[n-1] = out[n-1], out[0]
-	}
-	return out
+	return out // out[i] differs from e.roots[i] for every i (numSectors does not divide 5)
 }
 
 // revisionOK: the returned revision carries a valid host signature, charges the renter no more
@@ -114,6 +111,8 @@ var readVariants = []readParams{
 	{1, 5*4096 + 128, 320},
 	{2, proto4.SectorSize - 4096, 4096},
 	{3, 64 * 1000, 128},
+	{4, 0, proto4.SectorSize / 2},   // half a sector: a one-hash proof
+	{5, proto4.SectorSize - 64, 64}, // the last leaf
 }
 
 func (e *env) hostRead(sector int, offset, length uint64) ([]byte, []types.Hash256) {
@@ -156,6 +155,10 @@ func newReadSession(e *env, c Case) *session {
 	var buf bytes.Buffer
 	s.call = func(ctx context.Context) (any, error) {
 		return rhp4.RPCReadSector(ctx, e.net, e.prices, e.token(), &buf, root, p.offset, p.length)
+	}
+	s.wireOK = func() bool {
+		var req proto4.RPCReadSectorRequest
+		return s.wireRequest(&req) && req.Root == root && req.Offset == p.offset && req.Length == p.length
 	}
 	s.synth = func(msg string, in inMsg) proto4.Object {
 		if msg == "resp" && in.obj != nil {
@@ -318,6 +321,10 @@ func newWriteSession(e *env, c Case) *session {
 	s.call = func(ctx context.Context) (any, error) {
 		return rhp4.RPCWriteSector(ctx, e.net, e.prices, e.token(), bytes.NewReader(data), length)
 	}
+	s.wireOK = func() bool {
+		var req proto4.RPCWriteSectorRequest
+		return s.wireRequest(&req) && req.DataLength == length && bytes.HasSuffix(s.sc.request(), data)
+	}
 	s.mutate = func(msg string, obj proto4.Object, _ *[]byte, f Fault) error {
 		r := obj.(*proto4.RPCWriteSectorResponse)
 		if f.Field != "Root" {
@@ -360,6 +367,10 @@ func newVerifySession(e *env, c Case) *session {
 	s.steps = []stepDef{{"resp", func() proto4.Object { return new(proto4.RPCVerifySectorResponse) }}}
 	s.call = func(ctx context.Context) (any, error) {
 		return rhp4.RPCVerifySector(ctx, e.net, e.prices, e.token(), root)
+	}
+	s.wireOK = func() bool {
+		var req proto4.RPCVerifySectorRequest
+		return s.wireRequest(&req) && req.Root == root && req.LeafIndex < proto4.LeavesPerSector
 	}
 	leafIndex := func() uint64 {
 		// the client draws the leaf index itself; read it from the request it sent
@@ -462,7 +473,7 @@ type rootsParams struct {
 	n, offset, length int
 }
 
-var rootsVariants = []rootsParams{{5, 1, 2}, {8, 5, 3}, {6, 0, 5}, {7, 3, 1}}
+var rootsVariants = []rootsParams{{5, 1, 2}, {8, 5, 3}, {6, 0, 5}, {7, 3, 1}, {8, 0, 1}, {4, 3, 1}}
 
 func newRootsSession(e *env, c Case) *session {
 	p := rootsVariants[c.Variant%len(rootsVariants)]
@@ -500,6 +511,10 @@ func newRootsSession(e *env, c Case) *session {
 	s.steps = []stepDef{{"resp", func() proto4.Object { return new(proto4.RPCSectorRootsResponse) }}}
 	s.call = func(ctx context.Context) (any, error) {
 		return rhp4.RPCSectorRoots(ctx, e.net, e.cs, e.prices, e.signer, old, uint64(p.offset), uint64(p.length))
+	}
+	s.wireOK = func() bool {
+		var req proto4.RPCSectorRootsRequest
+		return s.wireRequest(&req) && req.ContractID == old.ID && req.Offset == uint64(p.offset) && req.Length == uint64(p.length)
 	}
 	s.mutate = func(msg string, obj proto4.Object, _ *[]byte, f Fault) error {
 		r := obj.(*proto4.RPCSectorRootsResponse)
@@ -565,6 +580,8 @@ var appendVariants = []appendParams{
 	{8, []int{8}, 0},
 	{0, []int{0, 1}, 1},
 	{3, []int{-1, 4, 5, 6}, 1},
+	{1, []int{1, 2}, 0},
+	{8, []int{8, 9, -1}, 1},
 }
 
 func subtreeRootsOf(tree []types.Hash256) []types.Hash256 {
@@ -604,6 +621,10 @@ func newAppendSession(e *env, c Case) *session {
 	}
 	s.call = func(ctx context.Context) (any, error) {
 		return rhp4.RPCAppendSectors(ctx, e.net, e.signer, e.cs, e.prices, old, req)
+	}
+	s.wireOK = func() bool {
+		var w proto4.RPCAppendSectorsRequest
+		return s.wireRequest(&w) && w.ContractID == old.ID && slices.Equal(w.Sectors, req)
 	}
 	// the revision the renter derives from the first response it received
 	derived := func(prices proto4.HostPrices) (types.V2FileContract, bool) {
@@ -750,7 +771,9 @@ var freeVariants = []freeParams{
 	{5, []uint64{1, 3}, []uint64{0, 2}},
 	{8, []uint64{7}, []uint64{2}},
 	{6, []uint64{5, 0, 2}, []uint64{1, 3, 4}},
-	{4, []uint64{0, 0, 2}, []uint64{1, 3}},
+	{4, []uint64{0, 0, 2}, []uint64{1, 3}},    // adjacent duplicate
+	{5, []uint64{4, 0, 4}, []uint64{1, 2}},    // duplicate with another index in between
+	{6, []uint64{0, 4, 0, 4}, []uint64{1, 5}}, // two of them
 }
 
 func normIndices(in []uint64) []uint64 {
@@ -798,16 +821,52 @@ func newFreeSession(e *env, c Case) *session {
 	s.call = func(ctx context.Context) (any, error) {
 		return rhp4.RPCFreeSectors(ctx, e.net, e.signer, e.cs, e.prices, old, p.indices)
 	}
+	// normal form of the request: the distinct indices, highest first
+	s.wireOK = func() bool {
+		var w proto4.RPCFreeSectorsRequest
+		return s.wireRequest(&w) && w.ContractID == old.ID && slices.Equal(w.Indices, normIndices(p.indices))
+	}
+	nWire := nFreed // number of indices the client actually sent (it prices and signs that many)
 	derived := func(prices proto4.HostPrices) (types.V2FileContract, bool) {
 		if sent == nil {
 			return types.V2FileContract{}, false
 		}
-		rev, _, err := proto4.ReviseForFreeSectors(old.Revision, prices, sent.NewMerkleRoot, nFreed)
+		rev, _, err := proto4.ReviseForFreeSectors(old.Revision, prices, sent.NewMerkleRoot, nWire)
 		return rev, err == nil
 	}
-	s.synth = func(msg string, in inMsg) proto4.Object {
-		if msg == "resp" && in.obj != nil {
-			sent = in.obj.(*proto4.RPCFreeSectorsResponse)
+	servedAsSent := false
+	s.synth = func(msg string, in inMsg) (out proto4.Object) {
+		if msg == "resp" {
+			var w proto4.RPCFreeSectorsRequest
+			if s.wireRequest(&w) {
+				nWire = len(w.Indices)
+			}
+			if in.obj != nil {
+				sent = in.obj.(*proto4.RPCFreeSectorsResponse)
+			} else if s.hasFault("resp", "All", "asSent") && in.rpcErr != nil {
+				// the honest host refused (duplicate indices ...): a host without that
+				// validation serves the list exactly as received -- the honest handler's
+				// code path: proof for the list, swap-with-tail once per index, trim
+				defer func() {
+					if recover() != nil {
+						out = nil
+					}
+				}()
+				for _, i := range w.Indices {
+					if i >= uint64(len(croots)) {
+						return nil
+					}
+				}
+				sub, leaf := proto4.BuildFreeSectorsProof(croots, w.Indices)
+				roots := cloneHashes(croots)
+				for i, n := range w.Indices {
+					roots[n] = roots[len(roots)-i-1]
+				}
+				roots = roots[:len(roots)-len(w.Indices)]
+				sent = &proto4.RPCFreeSectorsResponse{OldSubtreeHashes: sub, OldLeafHashes: leaf, NewMerkleRoot: proto4.MetaRoot(roots)}
+				servedAsSent = true
+				return sent
+			}
 		}
 		if msg == "sig" && s.corrupted {
 			if rev, ok := derived(e.prices); ok {
@@ -881,6 +940,10 @@ func newFreeSession(e *env, c Case) *session {
 			}
 		case "All":
 			switch f.How {
+			case "asSent":
+				if !servedAsSent {
+					s.noop[f.String()] = true // the honest host served the request: nothing to add
+				}
 			case "otherRange":
 				// a complete, internally consistent proof -- for freeing other sectors
 				r.OldSubtreeHashes, r.OldLeafHashes, r.NewMerkleRoot = altSub, altLeaf, altRoot
@@ -961,6 +1024,141 @@ func newFreeOutOfRangeSession(e *env, c Case) *session {
 	return s
 }
 
+// ---------------------------------------------------------------- further argument edges (unservable)
+
+// RPCSectorRoots with an empty range or one that leaves the contract: the client refuses it itself
+// (request validation); a host could answer all the same (fault resp.All:otherRange).
+var rootsOORVariants = [][2]uint64{{4, 2}, {5, 1}, {0, 6}, {2, 0}, {6, 1}, {0, 0}}
+
+func newRootsOutOfRangeSession(e *env, c Case) *session {
+	p := rootsOORVariants[c.Variant%len(rootsOORVariants)]
+	offset, length := p[0], p[1]
+	s := &session{e: e, c: c}
+	croots := cloneHashes(e.roots[:5])
+	e.normalize(croots)
+	old := e.contract
+	lying := s.hasFault("resp", "All", "otherRange")
+	s.steps = []stepDef{{"resp", func() proto4.Object { return new(proto4.RPCSectorRootsResponse) }}}
+	s.call = func(ctx context.Context) (any, error) {
+		return rhp4.RPCSectorRoots(ctx, e.net, e.cs, e.prices, e.signer, old, offset, length)
+	}
+	s.synth = func(msg string, in inMsg) proto4.Object {
+		if !lying {
+			return nil
+		}
+		roots := make([]types.Hash256, length)
+		for i := range roots {
+			roots[i] = e.roots[(int(offset)+i)%numSectors]
+		}
+		resp := &proto4.RPCSectorRootsResponse{Roots: roots, Proof: []types.Hash256{proto4.MetaRoot(croots[:4])}}
+		if rev, _, err := proto4.ReviseForSectorRoots(old.Revision, e.prices, length); err == nil {
+			resp.HostSignature = s.hostSign(rev)
+		}
+		return resp
+	}
+	s.mutate = func(msg string, obj proto4.Object, raw *[]byte, f Fault) error {
+		if f.Field == "All" && f.How == "otherRange" {
+			return nil // done by synth
+		}
+		return errUnknownFault
+	}
+	s.bound = func(any) (bool, map[string]bool) {
+		return false, map[string]bool{"requestedRangeExists": false}
+	}
+	return s
+}
+
+// RPCReadSector with an empty range, a range that ends unaligned or leaves the sector: refused by
+// the client itself; a host could answer with some leaf and its proof.
+var readInvalidVariants = []readParams{
+	{0, 0, 32},
+	{1, proto4.SectorSize - 64, 128},
+	{2, 0, 0},
+	{3, proto4.SectorSize, 64},
+}
+
+func newReadInvalidSession(e *env, c Case) *session {
+	p := readInvalidVariants[c.Variant%len(readInvalidVariants)]
+	s := &session{e: e, c: c}
+	leaf, proof := e.hostRead(p.sector, 0, 64)
+	lying := s.hasFault("resp", "All", "otherRange")
+	s.steps = []stepDef{
+		{"resp", func() proto4.Object { return new(proto4.RPCReadSectorResponse) }},
+		{"data", nil},
+	}
+	s.rawLen = func() int { return 0 }
+	var buf bytes.Buffer
+	s.call = func(ctx context.Context) (any, error) {
+		return rhp4.RPCReadSector(ctx, e.net, e.prices, e.token(), &buf, e.roots[p.sector], p.offset, p.length)
+	}
+	s.synth = func(msg string, in inMsg) proto4.Object {
+		if msg == "resp" && lying {
+			return &proto4.RPCReadSectorResponse{Proof: proof, DataLength: 64}
+		}
+		return nil
+	}
+	s.dataHook = func(raw []byte) []byte {
+		if lying {
+			return append([]byte(nil), leaf...)
+		}
+		return raw
+	}
+	s.mutate = func(msg string, obj proto4.Object, raw *[]byte, f Fault) error {
+		if f.Field == "All" && f.How == "otherRange" {
+			return nil
+		}
+		return errUnknownFault
+	}
+	s.bound = func(any) (bool, map[string]bool) {
+		return false, map[string]bool{"requestedRangeExists": false}
+	}
+	return s
+}
+
+// RPCAppendSectors with no roots: sent as it is; the honest host refuses; a host that serves the
+// request as sent (fault resp.All:asSent) proves and signs the append of nothing -- which is bound.
+func newAppendEmptySession(e *env, c Case) *session {
+	n := []int{5, 0, 8, 3, 1, 6}[c.Variant%6]
+	s := &session{e: e, c: c}
+	croots := cloneHashes(e.roots[:n])
+	e.normalize(croots)
+	old := e.contract
+	lying := s.hasFault("resp", "All", "asSent")
+	s.steps = []stepDef{
+		{"resp", func() proto4.Object { return new(proto4.RPCAppendSectorsResponse) }},
+		{"sig", func() proto4.Object { return new(proto4.RPCAppendSectorsThirdResponse) }},
+	}
+	s.call = func(ctx context.Context) (any, error) {
+		return rhp4.RPCAppendSectors(ctx, e.net, e.signer, e.cs, e.prices, old, nil)
+	}
+	s.synth = func(msg string, in inMsg) proto4.Object {
+		if !lying || in.obj != nil {
+			return nil
+		}
+		root := proto4.MetaRoot(croots)
+		if msg == "resp" {
+			return &proto4.RPCAppendSectorsResponse{Accepted: []bool{}, SubtreeRoots: subtreeRootsOf(croots), NewMerkleRoot: root}
+		}
+		if rev, _, err := proto4.ReviseForAppendSectors(old.Revision, e.prices, root, 0); err == nil {
+			return &proto4.RPCAppendSectorsThirdResponse{HostSignature: s.hostSign(rev)}
+		}
+		return nil
+	}
+	s.mutate = func(msg string, obj proto4.Object, raw *[]byte, f Fault) error {
+		if f.Field == "All" && f.How == "asSent" {
+			return nil
+		}
+		return errUnknownFault
+	}
+	s.bound = func(res any) (bool, map[string]bool) {
+		r := res.(rhp4.RPCAppendSectorsResult)
+		d := map[string]bool{"nothingAppended": len(r.Sectors) == 0}
+		ok := s.revisionOK(r.Revision, types.ZeroCurrency, proto4.MetaRoot(croots), uint64(n)*proto4.SectorSize, d)
+		return ok && d["nothingAppended"], d
+	}
+	return s
+}
+
 // ---------------------------------------------------------------- FundAccounts
 
 func newFundSession(e *env, c Case) *session {
@@ -978,6 +1176,10 @@ func newFundSession(e *env, c Case) *session {
 	s.steps = []stepDef{{"resp", func() proto4.Object { return new(proto4.RPCFundAccountsResponse) }}}
 	s.call = func(ctx context.Context) (any, error) {
 		return rhp4.RPCFundAccounts(ctx, e.net, e.cs, e.signer, old, deposits)
+	}
+	s.wireOK = func() bool {
+		var w proto4.RPCFundAccountsRequest
+		return s.wireRequest(&w) && w.ContractID == old.ID && slices.Equal(w.Deposits, deposits)
 	}
 	s.mutate = func(msg string, obj proto4.Object, _ *[]byte, f Fault) error {
 		r := obj.(*proto4.RPCFundAccountsResponse)
@@ -1087,6 +1289,10 @@ func newReplenishSession(e *env, c Case, pools bool) *session {
 	s.call = func(ctx context.Context) (any, error) {
 		rev, deps, err := replenish(ctx, accounts, target)
 		return result{rev, deps}, err
+	}
+	s.wireOK = func() bool {
+		var w proto4.RPCReplenishAccountsRequest
+		return s.wireRequest(&w) && w.ContractID == old.ID && w.Target == target && slices.Equal(w.Accounts, accounts)
 	}
 	derived := func(extra uint64) (types.V2FileContract, bool) {
 		if sent == nil {
@@ -1260,6 +1466,12 @@ func (e *env) newSession(c Case) (*session, error) {
 		return newReadUnalignedSession(e, c), nil
 	case "FreeOutOfRange":
 		return newFreeOutOfRangeSession(e, c), nil
+	case "RootsOutOfRange":
+		return newRootsOutOfRangeSession(e, c), nil
+	case "ReadInvalid":
+		return newReadInvalidSession(e, c), nil
+	case "AppendEmpty":
+		return newAppendEmptySession(e, c), nil
 	case "WriteSector":
 		return newWriteSession(e, c), nil
 	case "VerifySector":
